@@ -48,6 +48,7 @@ type Mp struct {
 	Len  string
 	K, V types.Type
 	KS   string // SMT sort of the (encoded) key
+	Nil  string // nil map
 }
 
 // Obj is an external object known only through ghost fields.
@@ -96,7 +97,7 @@ func mapVal(v Val, f func(t string) string) Val {
 	case Pt:
 		return Pt{f(x.Nil), mapVal(x.Elem, f), x.T}
 	case Mp:
-		return Mp{f(x.Has), mapVal(x.Val, f), f(x.Len), x.K, x.V, x.KS}
+		return Mp{f(x.Has), mapVal(x.Val, f), f(x.Len), x.K, x.V, x.KS, f(x.Nil)}
 	case Tup:
 		ne := make([]Val, len(x.E))
 		for i := range x.E {
@@ -141,7 +142,7 @@ func zipVal(a, b Val, f func(x, y string) string) Val {
 		return Pt{f(x.Nil, y.Nil), zipVal(x.Elem, y.Elem, f), x.T}
 	case Mp:
 		y := b.(Mp)
-		return Mp{f(x.Has, y.Has), zipVal(x.Val, y.Val, f), f(x.Len, y.Len), x.K, x.V, x.KS}
+		return Mp{f(x.Has, y.Has), zipVal(x.Val, y.Val, f), f(x.Len, y.Len), x.K, x.V, x.KS, f(x.Nil, y.Nil)}
 	case Tup:
 		y := b.(Tup)
 		ne := make([]Val, len(x.E))
@@ -189,7 +190,7 @@ func leaves(v Val) []string {
 		case Mp:
 			out = append(out, x.Has)
 			rec(x.Val)
-			out = append(out, x.Len)
+			out = append(out, x.Len, x.Nil)
 		case Tup:
 			for _, e := range x.E {
 				rec(e)
@@ -254,7 +255,7 @@ func relift(v, like Val) Val {
 	case Pt:
 		return Pt{x.Nil, relift(x.Elem, like.(Pt).Elem), x.T}
 	case Mp:
-		return Mp{x.Has, relift(x.Val, like.(Mp).Val), x.Len, x.K, x.V, x.KS}
+		return Mp{x.Has, relift(x.Val, like.(Mp).Val), x.Len, x.K, x.V, x.KS, x.Nil}
 	case Tup:
 		y := like.(Tup)
 		ne := make([]Val, len(x.E))
@@ -287,7 +288,7 @@ func unliftSorts(v Val) Val {
 	case Pt:
 		return Pt{x.Nil, unliftSorts(x.Elem), x.T}
 	case Mp:
-		return Mp{x.Has, unliftSorts(x.Val), x.Len, x.K, x.V, x.KS}
+		return Mp{x.Has, unliftSorts(x.Val), x.Len, x.K, x.V, x.KS, x.Nil}
 	case Tup:
 		ne := make([]Val, len(x.E))
 		for i := range x.E {
@@ -356,6 +357,7 @@ var objTypes = map[string]string{
 	"io.ReadCloser":   "io.Reader",
 	"regexp.Regexp":   "regexp.Regexp",
 	"github.com/fluhus/gostuff/minhash.MinHash[uint64]": "minhash.MinHash",
+	"github.com/fluhus/gostuff/minhash.MinHash[T]":      "minhash.MinHash",
 	"hash.Hash64":     "hash.Hash64",
 	"github.com/fluhus/gostuff/aio.Reader": "io.Reader",
 }
